@@ -873,6 +873,22 @@ func RegisterAPI(apiPkg string) {
 		}
 		return s
 	}
+	O[p+"VerifLiveGoroutines"] = func(fr *frame, args []value) value {
+		// let every runnable goroutine run until it blocks or ends, then count the unfinished ones
+		for k := 0; k < 64; k++ {
+			if len(fr.i.runnable(fr.g)) == 0 {
+				break
+			}
+			fr.i.yield(fr.g)
+		}
+		n := 0
+		for _, g := range fr.i.gors {
+			if !g.done && g != fr.g {
+				n++
+			}
+		}
+		return n + 1 // natively the caller itself (and the test runner) are counted: only differences are compared
+	}
 	O[p+"VerifSteps"] = func(fr *frame, args []value) value { return fr.i.steps }
 	O[p+"VerifIsSymbolic"] = func(fr *frame, args []value) value { return true }
 	O[p+"VerifPanics"] = func(fr *frame, args []value) value {
